@@ -105,6 +105,48 @@ def run(payload):
             got = mesh.combine_field_data(parts)
             if not np.allclose(got, want, rtol=1e-9, atol=1e-11):
                 fail("operator_equivalence", grid=repr(grid), decomposition=deco, max_dev=float(np.max(np.abs(got - want))))
+            # ghost cells from the neighbouring sub-fields (copied face by face) and, at outer faces, from the global condition
+            # transferred with to_subgrid; a refused transfer (NotImplementedError) is not a wrong result
+            if isinstance(grid, CartesianGrid):
+                first = grid.axes[0]
+                variants = [bc]
+                if not grid.periodic[0]:
+                    rest = {ax: ("periodic" if grid.periodic[k] else {"value": 1.0}) for k, ax in enumerate(grid.axes) if k > 0}
+                    variants += [{**rest, first + "-": {"type": "virtual_point", "value": "2 - value"}, first + "+": {"type": "virtual_point", "value": "value + 0.5 * dx"}},
+                                 {**rest, first + "-": {"type": "virtual_point", "value": "value", "value_cell": -1}, first + "+": {"type": "virtual_point", "value": "value", "value_cell": 0}},
+                                 {**rest, first + "-": {"type": "virtual_point", "value": "value", "value_cell": -2}, first + "+": {"derivative": 0}}]
+                for bcv in variants:
+                    cases += 1
+                    try:
+                        want_v = f.laplace(bcv, backend="numba").data
+                        bcs_base = grid.get_boundary_conditions(bcv, rank=0)
+                        sfs = [mesh.extract_subfield(f, k) for k in range(len(mesh))]
+                        refused = False
+                        for a in range(grid.num_axes):
+                            for k, sub in enumerate(sfs):
+                                for up in (True, False):
+                                    nb = mesh.get_neighbor(a, up, node_id=k)
+                                    if nb is None:
+                                        try:
+                                            bcs_base[a][up].to_subgrid(mesh[k]).set_ghost_cells(sub._data_full)
+                                        except NotImplementedError:
+                                            refused = True
+                                    else:
+                                        iw, ir = [slice(1, -1)] * grid.num_axes, [slice(1, -1)] * grid.num_axes
+                                        iw[a], ir[a] = (-1 if up else 0), (1 if up else -2)
+                                        sub._data_full[tuple(iw)] = sfs[nb]._data_full[tuple(ir)]
+                        if refused:
+                            continue
+                        outs = []
+                        for sub in sfs:
+                            o = np.empty(sub.grid.shape)
+                            sub.grid.make_operator_no_bc("laplace", backend="numba")(sub._data_full, o)
+                            outs.append(o)
+                        got_v = mesh.combine_field_data(outs)
+                        if not np.allclose(got_v, want_v, rtol=1e-9, atol=1e-11):
+                            fail("operator_with_neighbour_ghost_cells_and_transferred_conditions", grid=repr(grid), decomposition=deco, bc=repr(bcv), max_dev=float(np.max(np.abs(got_v - want_v))))
+                    except Exception as e:
+                        fail("to_subgrid_error", grid=repr(grid), decomposition=deco, bc=repr(bcv), error=f"{type(e).__name__}: {e}")
             # boundary conditions transferred to sub-grids at outer faces (serial mesh: only single-chunk axes can be checked through the public path)
             if isinstance(grid, CartesianGrid) and all(d == 1 for d in deco) and not any(grid.periodic):
                 bcs = grid.get_boundary_conditions(bc)
@@ -118,6 +160,42 @@ def run(payload):
                         fail("boundary_conditions_on_subgrid", grid=repr(grid), max_dev=float(np.max(np.abs(got - want))))
                 except Exception as e:
                     fail("to_subgrid_error", grid=repr(grid), error=f"{type(e).__name__}: {e}")
+    # ---- field objects of every class and dtype: extracting the sub-fields and combining their data is the identity
+    #      (values and dtype), with and without ghost cells
+    from pde import FieldCollection, Tensor2Field, VectorField
+    g2 = UnitGrid([4, 6])
+    for deco in ([2, 2], [1, 3], [4, 1]):
+        mesh = GridMesh.from_grid(g2, deco)
+        for dtype in (np.float64, np.float32, np.int64, np.complex128, np.complex64):
+            def filled(cls):
+                f = cls(g2, dtype=dtype)
+                vals = rng.integers(-1000, 1000, f.data.shape)
+                f.data[...] = (vals + 2**53 + 1) if dtype is np.int64 else vals.astype(dtype) / 7
+                return f
+            fields = {"ScalarField": filled(ScalarField), "VectorField": filled(VectorField), "Tensor2Field": filled(Tensor2Field)}
+            fields["FieldCollection"] = FieldCollection([filled(ScalarField), filled(VectorField)], dtype=dtype)
+            for name, f in fields.items():
+                for ghost in (False, True):
+                    cases += 1
+                    try:
+                        subs = [mesh.extract_subfield(f, k, with_ghost_cells=ghost) for k in range(len(mesh))]
+                        comb = mesh.combine_field_data([s._data_full if ghost else s.data for s in subs], with_ghost_cells=ghost)
+                    except Exception as e:
+                        fail("subfield_error", field=name, dtype=np.dtype(dtype).name, decomposition=deco, error=f"{type(e).__name__}: {e}")
+                        continue
+                    want = f._data_full if ghost else f.data
+                    same = comb.shape == want.shape and bool(np.all(comb[..., 1:-1, 1:-1] == want[..., 1:-1, 1:-1] if ghost else comb == want))
+                    if any(s.dtype != f.dtype for s in subs) or comb.dtype != f.dtype or not same:
+                        fail("split_and_combine_of_field_objects_is_not_the_identity", field=name, dtype=np.dtype(dtype).name, decomposition=deco, with_ghost_cells=ghost,
+                             subfield_dtype=str(subs[0].dtype), combined_dtype=str(comb.dtype), values_identical=same)
+                if deco == [2, 2]:
+                    cases += 1
+                    try:
+                        part = GridMesh.from_grid(g2, [1, 1]).split_field_mpi(f)
+                        if part.dtype != f.dtype or not np.array_equal(part.data, f.data):
+                            fail("split_field_mpi_changes_the_field", field=name, dtype=np.dtype(dtype).name, got_dtype=str(part.dtype))
+                    except Exception as e:
+                        fail("subfield_error", field=name, dtype=np.dtype(dtype).name, where="split_field_mpi", error=f"{type(e).__name__}: {e}")
     sweep = subdivide_sweep(payload.get("subdivide_limit", 120))
     cases += payload.get("subdivide_limit", 120) * (payload.get("subdivide_limit", 120) + 1) // 2
     fails = list(fails) + sweep
